@@ -14,7 +14,12 @@ Definition probe := (key * entity * Z)%type.
    CPrep: prepare_room_node called directly; CE2E: the same through add_room_node on an instance *)
 Inductive c07case :=
 | CPrep (old : option roomnode) (cand : roomnode) (probes : list probe)
-| CE2E (old : option roomnode) (cand : roomnode) (probes : list probe).
+| CE2E (old : option roomnode) (cand : roomnode) (probes : list probe)
+(* the validly signed definition [cand] went through the signature verification first; then a copy of it in
+   which row / reference number [k] was tampered with (one field changed, or other content under a copied
+   key and signature) is submitted to the same verification: signatures bind the content (symbolic
+   signatures), the copy is refused before prepare_room_node is reached *)
+| CForged (cand : roomnode) (k : N).
 
 (* ------------------------------------------------------------------ flat view of a definition *)
 (* kinds: 1 admin entry, 2 user entry, 3 user-admin entry, 4 right entry, 5 group row *)
@@ -78,6 +83,7 @@ Definition run_C07 (c : c07case) : list Z :=
   match c with
   | CPrep old cand probes => run_with true old cand probes
   | CE2E old cand probes => run_with false old cand probes
+  | CForged _ _ => [200]
   end.
 
 (* ------------------------------------------------------------------ the property's oracle *)
@@ -145,8 +151,10 @@ Definition bootstrap (cdate : Z) (x : sent) : bool :=
 Definition is_base (fresh : bool) (cdate : Z) (olds : list sent) (x : sent) : bool :=
   if fresh then bootstrap cdate x else existsb (sent_eqb x) olds.
 
+(* date order; within one date the revocations first: a key revoked at date d is not entitled at d *)
+Definition admin_order (x : sent) : Z := 2 * s_date x + s_b x.
 Definition admins_ok (fresh : bool) (cdate : Z) (olds res : list sent) : bool :=
-  let ads := sort_by s_date (of_kind 1 res) in
+  let ads := sort_by admin_order (of_kind 1 res) in
   admins_justified (evs_of (filter (is_base fresh cdate olds) ads)) (is_base fresh cdate olds) ads.
 
 (* a new (or re-signed) non-administrator entry: its author must be entitled at the entry's date *)
@@ -249,11 +257,12 @@ Definition spec_C07 (c : c07case) (obs : list Z) : bool :=
                     (union_sedges (old_sedges old) (sedges_of cand)) probes dec
       | _ => true
       end
+  | CForged _ _ => zlist_eqb obs [200]        (* a row whose content is not the signed one is never attributed to the signer *)
   end.
 
 (* ------------------------------------------------------------------ known-finding classes *)
-Definition case_old (c : c07case) := match c with CPrep o _ _ | CE2E o _ _ => o end.
-Definition case_cand (c : c07case) := match c with CPrep _ n _ | CE2E _ n _ => n end.
+Definition case_old (c : c07case) := match c with CPrep o _ _ | CE2E o _ _ => o | CForged n _ => Some n end.
+Definition case_cand (c : c07case) := match c with CPrep _ n _ | CE2E _ n _ | CForged n _ => n end.
 
 (* class 1: a new entry of the candidate IS referenced from this room / group under the field of the
             list it is put in, but by no reference of its own author (for a group row: of a key that
@@ -265,7 +274,15 @@ Definition case_cand (c : c07case) := match c with CPrep _ n _ | CE2E _ n _ => n
             date order from the creator's own entries (prepare_new_room asks the fully parsed
             candidate, which already contains the entry that is being judged)
    class 3: repaired by 85b1827 (user-admin entries of a group new to the peer), no class any more
-   class 4: repaired by cd32c02 (two rows with one id in a list), no class any more *)
+   class 4: repaired by cd32c02 (two rows with one id in a list), no class any more
+   class 5: (update path) a new administrator entry x and a new entry revoking x's author carry the SAME date
+            and x is listed before the revocation: the sort by date is stable, x is judged while its author
+            is still enabled *)
+Fixpoint tie_before (l : list sent) : bool :=
+  match l with
+  | [] => false
+  | x :: tl => existsb (fun y => Z.eqb (s_b y) 0 && Z.eqb (s_a y) (s_author x) && Z.eqb (s_date y) (s_date x)) tl || tie_before tl
+  end.
 Definition known_C07 (c : c07case) : list Z :=
   let old := case_old c in let cand := case_cand c in
   let olds := old_sents old in
@@ -275,7 +292,8 @@ Definition known_C07 (c : c07case) : list Z :=
   let rid := zn (rmn_id cand) in
   (if existsb (fun x => needs_place olds x && placed_field rid edges x &&
                         negb (placed rid (evs_of (of_kind 1 res)) edges x)) news then [1] else []) ++
-  (if is_fresh old && negb (admins_ok true (rmn_cdate cand) [] (sents_of cand)) then [2] else []).
+  (if is_fresh old && negb (admins_ok true (rmn_cdate cand) [] (sents_of cand)) then [2] else []) ++
+  (if negb (is_fresh old) && tie_before (filter (fun x => negb (existsb (sent_eqb x) olds)) (of_kind 1 (sents_of cand))) then [5] else []).
 
 Definition eval_C07 (c : c07case) (obs : list Z) : list Z :=
   [zb (zlist_eqb (run_C07 c) obs); zb (spec_C07 c obs)] ++ known_C07 c.
